@@ -202,7 +202,7 @@ class Sem:
             if hid:
                 if j > i:
                     break  # may not consume the hidden dot
-                if self.strict or (self.qa and self.fn_star):
+                if self.strict or (self.qa and (self.fn_star or (self.pathseg and s in ('.', '..')))):
                     continue  # may not even stand there
             if not self.alt_full(alts, i, j):
                 acc |= self.ends(rest, j)
@@ -233,6 +233,8 @@ class Sem:
             if hid:
                 if self.strict or (self.qa and self.fn_star) or (self.qb and i > 0 and self.fn_star):
                     return ()
+                if self.qa and self.pathseg and s in ('.', '..'):
+                    return ()   # the ./.. guard is a look-ahead in front of the star: it cannot even match empty there
                 return (i,)
             out = [i]
             j = i
@@ -272,11 +274,10 @@ class Sem:
         raise ValueError(f'unknown token {t!r}')
 
     def alt_full(self, alts, i, j):
-        """Does some alternative consume exactly s[i:j] (evaluated in the same position context)?"""
-        sub = Sem(self.s[:j], self.dot, self.icase, self.strict, self.nosep, self.quirks, self.fn_star,
-                  self.pathseg)
+        """Does some alternative consume exactly s[i:j]? (evaluated in place, so that position-dependent rules see
+        the real text that follows)"""
         for a in alts:
-            if j in sub.ends(a, i):
+            if j in self.ends(a, i):
                 return True
         return False
 
